@@ -328,7 +328,8 @@ def _check_object_from_file(query, filepath, allow_custom, version, encoding):
         )
 
     if isinstance(stix_json, dict) and stix_json.get("type") == "bundle" \
-            and stix_json.get("objects"):
+            and isinstance(stix_json.get("objects"), list) \
+            and stix_json["objects"]:
         # (a file written with bundlify=True)  The object is what is asked
         # for, and what a named version is meant for.
         stix_json = stix_json["objects"][0]
@@ -604,12 +605,13 @@ class FileSystemSink(DataSink):
         # and no empty file must be left behind.
         text = io.StringIO()
         fp_serialize(stix_obj, text, pretty=pretty, encoding=encoding, ensure_ascii=False)
+        data = text.getvalue().encode(encoding)
 
         if not os.path.exists(obj_dir):
             os.makedirs(obj_dir)
 
-        with io.open(file_path, mode='w', encoding=encoding) as f:
-            f.write(text.getvalue())
+        with io.open(file_path, mode='wb') as f:
+            f.write(data)
 
     def add(self, stix_data=None, version=None, pretty=True):
         """Add STIX objects to file directory.
